@@ -10,7 +10,7 @@ MODEL = ["independent byte-per-entry GF(2) reference model (harness/ref.c) and r
          "judge and sharding in verif.py"]
 
 PROPS = {}
-HOOK_COMMITS = []
+HOOK_COMMITS = ["52a5a65"]
 NOT_APPLICABLE = []
 
 PROPS["C01"] = dict(
